@@ -17,3 +17,5 @@ def run(ctx):
     r.not_decided = ["greedy/lazy choice inside re (T2)", "lower-case ambiguity letters in a pattern are not transcribed by the code; no rule is armed on that"]
     ctx.guard(transcription_rule, ctx, "C16.transcription")
     run_kernels(ctx, ["K2", "K1"], "C16")
+    from ..rules_misc import text_consumers_rule
+    ctx.guard(text_consumers_rule, ctx, "C16.text-consumers")
